@@ -394,10 +394,15 @@ func paramOfType(fset *token.FileSet, fd *ast.FuncDecl, typ string) string {
 }
 
 // walk visits fd in source order; env maps a parameter of fd to the role of the argument it was called with.
+//
+// Calls are EVALUATED (evalCall): arguments first, left to right — so `failWithFee(tuneFee(fee, balance), err)` is a tune
+// followed by a charge — and a call yields the role of its result (`tuned`, `old`, `new`). A call of a locally defined
+// closure (`name := func(params) {…}`, a simple single definition) is followed like a same-package helper: its body is
+// walked with parameter -> argument-role substitution, its free variables are those of the enclosing function, looked
+// up at the position of the call. if / switch / early-return forms need nothing special: effects are listed in source order.
 func (w *feeWalker) walk(fd *ast.FuncDecl, env map[string]string, depth int) {
 	defs := singleDefs(fd)
 	txParam := paramOfType(w.fset, fd, "types.Transaction")
-	// assignments in source order: which names currently hold a balance read / a tuned fee
 	type asg struct {
 		pos  token.Pos
 		name string
@@ -405,9 +410,22 @@ func (w *feeWalker) walk(fd *ast.FuncDecl, env map[string]string, depth int) {
 	}
 	var asgs []asg
 	balanceReads := 0
-	roleOf := func(e ast.Expr, at token.Pos) string {
+	closureDepth := 0
+	var evalCall func(ce *ast.CallExpr, at token.Pos, penv map[string]string) string
+	var descend func(n ast.Node, at token.Pos, penv map[string]string, override bool)
+
+	roleOf := func(e ast.Expr, at token.Pos, penv map[string]string) string {
 		e = stripParens(e)
+		if ce, ok := e.(*ast.CallExpr); ok {
+			if r := evalCall(ce, at, penv); r != "" {
+				return r
+			}
+			return canonTerm(w.fset, ce, txParam)
+		}
 		if id, ok := e.(*ast.Ident); ok {
+			if r, ok := penv[id.Name]; ok { // parameter of the closure being walked
+				return r
+			}
 			role := ""
 			for _, a := range asgs {
 				if a.name == id.Name && a.pos < at {
@@ -423,8 +441,29 @@ func (w *feeWalker) walk(fd *ast.FuncDecl, env map[string]string, depth int) {
 		}
 		return canonTerm(w.fset, inlineLocals(e, defs), txParam)
 	}
-	var visitCall func(ce *ast.CallExpr, lhs []ast.Expr, at token.Pos)
-	visitCall = func(ce *ast.CallExpr, lhs []ast.Expr, at token.Pos) {
+	bind := func(lhs []ast.Expr, at token.Pos, role string) {
+		if len(lhs) > 0 && role != "" {
+			if id, ok := lhs[0].(*ast.Ident); ok && id.Name != "_" {
+				asgs = append(asgs, asg{at, id.Name, role})
+			}
+		}
+	}
+	closureOf := func(ce *ast.CallExpr) *ast.FuncLit {
+		id, ok := ce.Fun.(*ast.Ident)
+		if !ok {
+			return nil
+		}
+		if d := defs.resolve(id); d != nil {
+			if fl, ok := stripParens(d).(*ast.FuncLit); ok {
+				return fl
+			}
+		}
+		return nil
+	}
+	evalCall = func(ce *ast.CallExpr, at token.Pos, penv map[string]string) string {
+		if w.err != nil {
+			return ""
+		}
 		name := ""
 		switch f := ce.Fun.(type) {
 		case *ast.Ident:
@@ -432,89 +471,130 @@ func (w *feeWalker) walk(fd *ast.FuncDecl, env map[string]string, depth int) {
 		case *ast.SelectorExpr:
 			name = f.Sel.Name
 		}
-		bind := func(role string) {
-			if len(lhs) > 0 {
-				if id, ok := lhs[0].(*ast.Ident); ok && id.Name != "_" {
-					asgs = append(asgs, asg{at, id.Name, role})
+		// roles of the arguments listed in `want` (evaluated in order with the others, which are only searched for calls)
+		argRoles := func(want map[int]bool) map[int]string {
+			out := map[int]string{}
+			for i, a := range ce.Args {
+				if want == nil || want[i] {
+					out[i] = roleOf(a, at, penv)
+				} else {
+					descend(a, at, penv, true)
 				}
 			}
+			return out
 		}
 		switch name {
 		case "getBalanceFromNative":
-			if depth == 0 { // only the reads of HandleInvokeTransaction itself define old / new
+			argRoles(map[int]bool{})
+			if depth == 0 && closureDepth == 0 { // only the reads of HandleInvokeTransaction itself define old / new
 				k := balanceReads
 				if k > 2 {
 					k = 2
 				}
-				bind([]string{"old", "new", "balance#3"}[k])
 				balanceReads++
+				return []string{"old", "new", "balance#3"}[k]
 			}
+			return ""
 		case "tuneGasFeeByHeight":
 			if len(ce.Args) != 4 {
 				w.err = fmt.Errorf("%s: tuneGasFeeByHeight called with %d arguments", fd.Name.Name, len(ce.Args))
-				return
+				return ""
 			}
-			w.effects = append(w.effects, fmt.Sprintf("tune(round=%s,balance=%s)", roleOf(ce.Args[2], at), roleOf(ce.Args[3], at)))
-			bind("tuned")
+			r := argRoles(map[int]bool{2: true, 3: true})
+			w.effects = append(w.effects, fmt.Sprintf("tune(round=%s,balance=%s)", r[2], r[3]))
+			return "tuned"
 		case "costInvalidGas", "chargeCostGas":
 			if len(ce.Args) < 2 {
 				w.err = fmt.Errorf("%s: %s called with %d arguments", fd.Name.Name, name, len(ce.Args))
-				return
+				return ""
 			}
-			w.effects = append(w.effects, fmt.Sprintf("%s(%s)", name, roleOf(ce.Args[1], at)))
-		default:
-			callee := calleeOf(w.funcs, ce)
-			if callee == nil || depth >= 3 || !w.reaches(callee, 3) {
-				return
+			r := argRoles(map[int]bool{1: true})
+			w.effects = append(w.effects, fmt.Sprintf("%s(%s)", name, r[1]))
+			return ""
+		}
+		if fl := closureOf(ce); fl != nil {
+			if closureDepth >= 3 {
+				w.err = fmt.Errorf("%s: closures nested too deep at %s", fd.Name.Name, name)
+				return ""
 			}
+			r := argRoles(nil)
 			sub := map[string]string{}
 			i := 0
-			for _, fl := range callee.Type.Params.List {
-				for _, n := range fl.Names {
-					if i < len(ce.Args) {
-						sub[n.Name] = roleOf(ce.Args[i], at)
+			for _, fld := range fl.Type.Params.List {
+				for _, n := range fld.Names {
+					if v, ok := r[i]; ok {
+						sub[n.Name] = v
 					}
 					i++
 				}
 			}
 			before := len(w.effects)
-			w.walk(callee, sub, depth+1)
-			// a helper that returns the fee it tuned hands the role on to the variable it is assigned to
-			if len(w.effects) > before {
-				for _, e := range w.effects[before:] {
-					if strings.HasPrefix(e, "tune(") {
-						bind("tuned")
-						break
-					}
+			closureDepth++
+			descend(fl.Body, at, sub, true)
+			closureDepth--
+			for _, e := range w.effects[before:] {
+				if strings.HasPrefix(e, "tune(") {
+					return "tuned" // a closure / helper that tunes hands the tuned fee back
 				}
 			}
+			return ""
 		}
+		callee := calleeOf(w.funcs, ce)
+		if callee == nil || depth >= 3 || !w.reaches(callee, 3) {
+			argRoles(map[int]bool{})
+			return ""
+		}
+		r := argRoles(nil)
+		sub := map[string]string{}
+		i := 0
+		for _, fld := range callee.Type.Params.List {
+			for _, n := range fld.Names {
+				if v, ok := r[i]; ok {
+					sub[n.Name] = v
+				}
+				i++
+			}
+		}
+		before := len(w.effects)
+		w.walk(callee, sub, depth+1)
+		for _, e := range w.effects[before:] {
+			if strings.HasPrefix(e, "tune(") {
+				return "tuned"
+			}
+		}
+		return ""
 	}
-	ast.Inspect(fd.Body, func(n ast.Node) bool {
-		if w.err != nil {
-			return false
-		}
-		switch x := n.(type) {
-		case *ast.AssignStmt:
-			if len(x.Rhs) == 1 {
-				if ce, ok := x.Rhs[0].(*ast.CallExpr); ok {
-					for _, a := range ce.Args { // calls nested in arguments first
-						ast.Inspect(a, func(m ast.Node) bool {
-							if c2, ok := m.(*ast.CallExpr); ok {
-								visitCall(c2, nil, x.Pos())
-							}
-							return true
-						})
-					}
-					visitCall(ce, x.Lhs, x.End())
-					return false
-				}
+	// descend walks a node in source order; `override`: positions inside (a closure body, an argument) are looked up as `at`
+	descend = func(n ast.Node, at token.Pos, penv map[string]string, override bool) {
+		ast.Inspect(n, func(m ast.Node) bool {
+			if w.err != nil || m == nil {
+				return false
 			}
-		case *ast.CallExpr:
-			visitCall(x, nil, x.Pos())
-		}
-		return true
-	})
+			pos := func(p token.Pos) token.Pos {
+				if override {
+					return at
+				}
+				return p
+			}
+			switch x := m.(type) {
+			case *ast.FuncLit:
+				return false // a closure acts where it is called
+			case *ast.AssignStmt:
+				if len(x.Rhs) == 1 {
+					if ce, ok := stripParens(x.Rhs[0]).(*ast.CallExpr); ok {
+						role := evalCall(ce, pos(x.Pos()), penv)
+						bind(x.Lhs, pos(x.End()), role)
+						return false
+					}
+				}
+			case *ast.CallExpr:
+				evalCall(x, pos(x.Pos()), penv)
+				return false
+			}
+			return true
+		})
+	}
+	descend(fd.Body, token.NoPos, map[string]string{}, false)
 }
 
 // reaches: does fd (transitively, same package) call one of the fee functions?
